@@ -92,6 +92,20 @@ def plain_sheet(table):
     return rows
 
 
+def compact_sheet(table):
+    """The same, the way spreadsheet applications store it: adjacent equal cells of a row are one element with a repeat count."""
+    rows = plain_sheet(table)
+    for row in rows:
+        cells = []
+        for cell in row["cells"]:
+            if cells and cells[-1]["paras"] == cell["paras"]:
+                cells[-1]["rep"] += 1
+            else:
+                cells.append(cell)
+        row["cells"] = cells
+    return rows
+
+
 _original_piece_xml = piece_xml
 
 
